@@ -15,7 +15,7 @@ FUNCTIONS = ["xgcm.padding:_pad_face_connections", "xgcm.padding:pad", "xgcm.pad
              "xgcm.grid:Grid._map_kwargs_over_axes", "xgcm.grid:Grid._1d_grid_ufunc_dispatch", "xgcm.grid:Grid.cumsum",
              "xgcm.grid:Grid._apply_vector_function", "xgcm.grid_ufunc:apply_as_grid_ufunc", "xgcm.transform:transform", "xgcm.grid:Grid.set_metrics"]
 BOUNDS = {
-    "quick": {"sequences": "every operation of 26 families twice on the same argument objects, and every ordered pair of operations on the same Grid and objects, each compared with the operation run first on fresh objects; constructor with every mapping-valued argument",
+    "quick": {"sequences": "every operation of 29 families twice on the same argument objects, and every ordered pair of operations on the same Grid and objects, each compared with the operation run first on fresh objects; constructor with every mapping-valued argument",
               "grids": "simple 2-axis grid with metrics; 2-face grid with an axis-swapping link (vector operations); outer-position grid (transform)", "data": "symbolic"},
     "thorough": {"sequences": "+ every ordered triple over 8 representative families"},
 }
@@ -60,6 +60,7 @@ class Objs:
         self.fdict = {"X": mk("fvx", ())[()] if False else W.scalar("fvx")}
         self.todict = {"X": "left", "Y": "left"}
         self.mwdict = {"X": ("X",), "Y": None}
+        self.todict_d = {"X": "left", "Y": None}  # None = "the axis' default shift": resolved per call, never stored
         self.widths = {"X": (1, 0), "Y": (0, 1)}
         self.phi = xr.DataArray(mk("phi", (2, 3)), dims=["t", "zc"], name="phi")
         self.theta = xr.DataArray(np.array([[1.0, 2.0, 4.0], [5.0, 3.5, 1.5]]), dims=["t", "zc"])  # anonymous on purpose
@@ -70,7 +71,7 @@ class Objs:
         self.levels = np.array([1.5, 3.0])
         self.bins = np.array([0.5, 2.0, 4.5])
         self.tracked = ["ds", "coords", "boundary_ctor", "fill_ctor", "metrics", "table", "shifts", "a", "fa", "u", "v", "vec", "other", "vec2", "bdict", "fdict",
-                        "todict", "mwdict", "widths", "phi", "theta", "theta_o", "levels", "bins", "wo", "ayg", "agg"]
+                        "todict", "todict_d", "mwdict", "widths", "phi", "theta", "theta_o", "levels", "bins", "wo", "ayg", "agg"]
 
 
 def posdata(W, name, shape):
@@ -121,6 +122,9 @@ OPS = {
     "diff-kwdicts": lambda o: o.grid.diff(o.a, ["X", "Y"], to=o.todict, boundary=o.bdict, fill_value=o.fdict),
     "interp-metric_weighted": lambda o: o.grid.interp(o.a, ["X", "Y"], metric_weighted=o.mwdict, boundary=o.bdict),
     "min": lambda o: o.grid.min(o.a, "X"),
+    "diff-to-mapping-with-default-entry": lambda o: o.grid.diff(o.a, ["X", "Y"], to=o.todict_d),
+    "interp-to-mapping-with-default-entry-other-position": lambda o: o.grid.interp(o.ayg, ["X", "Y"], to=o.todict_d),
+    "cumsum-to-mapping-with-default-entry": lambda o: o.grid.cumsum(o.a, ["X", "Y"], to=o.todict_d, boundary="fill", fill_value=0.0),
     "diff-unpadded-outer-to-center": lambda o: o.grid.diff(o.wo, "Z", to="center"),
     "interp-unpadded-outer-to-center": lambda o: o.grid.interp(o.wo, "Z", to="center"),
     "min-unpadded-center-to-outer-and-back": lambda o: o.grid.min(o.grid.max(o.phi, "Z", to="outer", boundary="extend"), "Z", to="center"),
